@@ -523,6 +523,83 @@ Section Forever.
   Qed.
 End Forever.
 
+(* ---------------- every step of a run: conservation and pinning (C01, C06) ---------------- *)
+Section RunInv.
+  Variable a : nat -> R.
+  Variable n : nat.
+  Variable es : list edgeR.
+  Variable fixed : list nat.
+  Variable solve : (nat -> R) -> (nat -> R).
+  Variable expi : R -> RC.
+
+  (* the k-th entry of a run is one [step] applied to the k-th input and to the state the previous entries produced *)
+  Lemma run_steps_nth repin gamma u : forall l psi mu k o,
+    nth_error (run_steps OpsR a n es fixed solve repin expi gamma u psi mu l) k = Some (Some o) ->
+    exists i psik muk,
+      nth_error l k = Some i /\
+      step OpsR a n es fixed solve (fun r => expi (o_mul OpsR (muk r) (si_dt _ i))) repin
+           (si_U _ i) psik (si_eps _ i) gamma u (si_dt _ i) (si_muB _ i) (si_dAdt _ i) = Some o.
+  Proof.
+    induction l as [|i tl IH]; intros psi mu k o H; [destruct k; discriminate|].
+    cbn [run_steps] in H.
+    destruct (step OpsR a n es fixed solve (fun r => expi (o_mul OpsR (mu r) (si_dt _ i))) repin
+                   (si_U _ i) psi (si_eps _ i) gamma u (si_dt _ i) (si_muB _ i) (si_dAdt _ i)) as [o1|] eqn:E.
+    - destruct k as [|k].
+      + cbn [nth_error] in H. inversion H; subst. exists i, psi, mu. split; [reflexivity|exact E].
+      + cbn [nth_error] in H. destruct (IH _ _ _ _ H) as (i' & pk & mk & A & B). exists i', pk, mk. split; assumption.
+    - destruct k as [|[|k]]; cbn [nth_error] in H; discriminate.
+  Qed.
+
+  (* C01 at every step of a run: whenever the linear solver returns solutions, the total current leaving every cell
+     equals the boundary injection of that step's boundary data *)
+  Theorem run_continuity repin gamma u :
+    (forall rhs r, (r < n)%nat -> applyR (lap_coo OpsR a es) (solve rhs) r = rhs r) ->
+    forall l psi mu k o i,
+      nth_error (run_steps OpsR a n es fixed solve repin expi gamma u psi mu l) k = Some (Some o) ->
+      nth_error l k = Some i ->
+      forall r, (r < n)%nat ->
+        applyR (div_coo OpsR a 0 es) (fun e => ob_Js _ (so_obs _ o) e + ob_Jn _ (so_obs _ o) e) r
+        = applyR (bflux_coo OpsR a 0 es) (si_muB _ i) r.
+  Proof.
+    intros Hsolve l psi mu k o i H Hi r Hr.
+    destruct (run_steps_nth repin gamma u l psi mu k o H) as (i' & pk & mk & A & B).
+    rewrite Hi in A. inversion A; subst i'. clear A.
+    unfold step in B. destruct (euler_all _ _ _ _ _ _ _ _ _ _ _ _) as [p|]; [|discriminate].
+    inversion B; subst o; clear B. cbn [so_obs].
+    apply (continuity a n es solve); [|exact Hr].
+    intros r0 Hr0. unfold solve_for_observables. cbn [ob_mu ob_rhs]. apply Hsolve. exact Hr0.
+  Qed.
+
+  (* C06 at every step of a run, default contact (terminal value 0): zero on the terminals initially, zero for ever *)
+  Theorem run_terminal_zero gamma u : NoDup fixed -> forall l psi mu,
+    (forall f, In f fixed -> psi f = (0, 0)) ->
+    Forall (fun x : option (step_out OpsR) => match x with Some o => forall f, In f fixed -> so_psi _ o f = (0, 0) | None => True end)
+           (run_steps OpsR a n es fixed solve None expi gamma u psi mu l).
+  Proof.
+    intros Hnd. induction l as [|i tl IH]; intros psi mu Hz; [constructor|].
+    cbn [run_steps].
+    destruct (step OpsR a n es fixed solve (fun r => expi (o_mul OpsR (mu r) (si_dt _ i))) None
+                   (si_U _ i) psi (si_eps _ i) gamma u (si_dt _ i) (si_muB _ i) (si_dAdt _ i)) as [o|] eqn:E.
+    - assert (Z : forall f, In f fixed -> so_psi _ o f = (0, 0)).
+      { intros f Hf. eapply terminal_zero_step; [exact Hnd|exact Hf|apply Hz; exact Hf|exact E]. }
+      constructor; [exact Z|apply IH; exact Z].
+    - constructor; [exact I|constructor].
+  Qed.
+
+  (* C06 at every step of a run, configured terminal value v: held exactly at every step, whatever the initial state *)
+  Theorem run_pinned_value_held v gamma u : forall l psi mu,
+    Forall (fun x : option (step_out OpsR) => match x with Some o => forall f, In f fixed -> so_psi _ o f = v | None => True end)
+           (run_steps OpsR a n es fixed solve (Some v) expi gamma u psi mu l).
+  Proof.
+    induction l as [|i tl IH]; intros psi mu; [constructor|].
+    cbn [run_steps].
+    destruct (step OpsR a n es fixed solve (fun r => expi (o_mul OpsR (mu r) (si_dt _ i))) (Some v)
+                   (si_U _ i) psi (si_eps _ i) gamma u (si_dt _ i) (si_muB _ i) (si_dAdt _ i)) as [o|] eqn:E.
+    - constructor; [|apply IH]. intros f Hf. eapply pinned_value_held; [exact Hf|exact E].
+    - constructor; [exact I|constructor].
+  Qed.
+End RunInv.
+
 (* ---------------- update_mu_boundary: the change-only cache is coherent (C01) ---------------- *)
 Section Cache.
   Notation termR := (terminal OpsR).
